@@ -457,7 +457,8 @@ pub fn gen_obj_jumbo(rng: &mut Rng) -> GenObj {
         let len = text.len();
         return GenObj { text, verts, tris, hot: vec![0, len / 2, len], lines: vec![], mutated: false };
     }
-    let nv = rng.usize(65_537, 70_000);
+    // mostly just past 2^16 vertices, now and then past 2^20
+    let nv = if rng.chance(1, 10) { rng.usize(1_048_577, 1_060_000) } else { rng.usize(65_537, 70_000) };
     let mut text = Vec::with_capacity(nv * 10);
     let mut verts = Vec::with_capacity(nv);
     for i in 0..nv {
